@@ -9,6 +9,8 @@ I-JEPA (namespace `Ijepa`): `sampleBlock`, `constrainedLoop`, `collate` mirror `
 -/
 import KDVerif.Lemmas.MasksDino
 import KDVerif.Lemmas.MasksIjepaSpec
+import KDVerif.Lemmas.C17Extra
+import KDVerif.Model.Collate
 
 namespace KDVerif.C17
 open KDVerif.Masks
@@ -389,5 +391,224 @@ example : (collate () ⟨4, 4, 2, 1, 2, 20⟩ (fun _ => ⟨2, 1, 3, 3⟩) (-1) 1
     .ok (0, (2, 1), (3, 3), [[0, 4], [6, 10]], [[1, 2, 5, 8, 9]]) := by rfl
 
 end ijepa
+
+/-! ## Round-2 additions
+Front-end arithmetic over `Rat` (floor), per-mask upper ratio at collate level, totality of the DINO model, two-run
+statements for the I-JEPA block sizes, and pass-through stated against `default_collate` (`Model/Collate.lean`).
+Helper lemmas (`c17x_…`, `Dino.ProposalOk`, `Dino.GenOk`) are in `Lemmas/C17Extra.lean`. -/
+
+section dino2
+open KDVerif.Masks.Dino
+
+/-- **Budget with the front end's arithmetic made explicit** (clause "at most floor(batch·views·mask_prob) non-empty
+    masks"). `n = B·V` masks are emitted and `k = ⌊B·V·p⌋` of them are generated, for an arbitrary rational `mask_prob = p ≥ 0`
+    (`Rat.floor`; python's `int(..)` truncates, which is the floor for non-negative values; the float rounding of the
+    product `B·V·p` is not modelled). Every successful call with `rng.shuffle` drawing a permutation returns exactly `B·V`
+    masks of which at most `k` are non-empty; `k` is characterised independently of `Rat.floor` by `k ≤ B·V·p < k+1`, and
+    `k ≤ B·V` (otherwise `masks[i]` raises `IndexError`, `Err.index`). -/
+theorem nonempty_masks_le_floor {β : Type} (batch : β) (H W B V : Nat) (p : Rat) (hp : 0 ≤ p)
+    (gens : List Gen) (perm : List Nat) (o : Out β)
+    (h : collate batch H W (B * V) ((((B * V : Nat) : Rat) * p).floor.toNat) gens perm = .ok o)
+    (hperm : perm.Perm (List.range (B * V))) :
+    o.masks.length = B * V ∧
+    o.masks.countP (fun m => decide (count m ≠ 0)) ≤ (((B * V : Nat) : Rat) * p).floor.toNat ∧
+    (((((B * V : Nat) : Rat) * p).floor.toNat : Nat) : Rat) ≤ ((B * V : Nat) : Rat) * p ∧
+    ((B * V : Nat) : Rat) * p < (((((B * V : Nat) : Rat) * p).floor.toNat + 1 : Nat) : Rat) ∧
+    (((B * V : Nat) : Rat) * p).floor.toNat ≤ B * V := by
+  have hx : (0 : Rat) ≤ ((B * V : Nat) : Rat) * p := Rat.mul_nonneg Rat.natCast_nonneg hp
+  refine ⟨(shuffle_perm batch H W _ _ gens perm o h hperm).2,
+    nonempty_masks_le_numMasked batch H W _ _ gens perm o h hperm,
+    c17x_toNat_floor_le _ hx, c17x_lt_toNat_floor_add_one _, (Dino.collate_unfold h).2.1⟩
+
+/-- for `mask_prob = a/b` the floor is natural-number division: `⌊B·V·a/b⌋ = B·V·a / b` -/
+theorem floor_closed_form (B V a b : Nat) (hb : 0 < b) :
+    (((B * V : Nat) : Rat) * ((a : Rat) / (b : Rat))).floor.toNat = B * V * a / b := by
+  rw [c17x_floor_nat_mul_div _ a b hb]; exact Int.toNat_natCast _
+
+/-- `B = 4`, `V = 2`, `mask_prob = 3/8`: `k = 3` -/
+example : (((4 * 2 : Nat) : Rat) * (3/8 : Rat)).floor.toNat = 3 ∧ (0 : Rat) ≤ 3/8 := by decide +kernel
+
+/-- an `ok` run with `B·V = 3·1`, `p = 1/3` (`k = 1`) -/
+example : (match collate "batch" 2 3 (3 * 1) ((((3 * 1 : Nat) : Rat) * (1/3 : Rat)).floor.toNat) [⟨2, [⟨1, 2, 1, 0⟩]⟩] [2, 0, 1] with
+    | .ok o => o.masks == [zeros 2 3, [[false, false, false], [true, true, false]], zeros 2 3]
+    | .error _ => false) = true := by decide +kernel
+
+/-- **No mask exceeds the upper mask ratio, for every mask of the batch** (clause "none exceeding the upper mask ratio", at
+    collate level). The per-mask target is `int(u_i · H·W)` with `u_i = rng.uniform(probs[i], probs[i+1]) ≤ ratio_max`
+    (`probs = linspace(ratio_min, ratio_max, k+1)`; this is the tape hypothesis `hu`, over rational `u_i`, float rounding not
+    modelled). Then every emitted mask — generated or empty, whatever proposals were drawn and however the list was
+    shuffled — is an `H × W` grid with at most `⌊ratio_max · H·W⌋` masked patches, i.e. its masked fraction is at most
+    `ratio_max`. -/
+theorem collate_masks_le_upper_ratio {β : Type} (batch : β) (H W n k : Nat) (gens : List Gen) (perm : List Nat) (o : Out β)
+    (h : collate batch H W n k gens perm = .ok o) (ratioMax : Rat) (h0 : 0 ≤ ratioMax)
+    (hu : ∀ g ∈ gens, ∃ u : Rat, u ≤ ratioMax ∧ g.total = (u * ((H * W : Nat) : Rat)).floor.toNat) :
+    ∀ m ∈ o.masks, WellShaped H W m ∧ count m ≤ (ratioMax * ((H * W : Nat) : Rat)).floor.toNat ∧
+      ((count m : Nat) : Rat) ≤ ratioMax * ((H * W : Nat) : Rat) := by
+  have hHW : (0 : Rat) ≤ ((H * W : Nat) : Rat) := Rat.natCast_nonneg
+  have hcap : ∀ g ∈ gens, g.total ≤ (ratioMax * ((H * W : Nat) : Rat)).floor.toNat := by
+    intro g hg
+    obtain ⟨u, hle, ht⟩ := hu g hg
+    rw [ht]
+    exact c17x_toNat_floor_mono (Rat.mul_le_mul_of_nonneg_right hle hHW)
+  intro m hm
+  obtain ⟨hs, hc⟩ := collate_masks_shape_and_budget batch H W n k gens perm o h _ hcap m hm
+  refine ⟨hs, hc, ?_⟩
+  have h1 : ((count m : Nat) : Rat) ≤ (((ratioMax * ((H * W : Nat) : Rat)).floor.toNat : Nat) : Rat) :=
+    Rat.natCast_le_natCast.mpr hc
+  exact Rat.le_trans h1 (c17x_toNat_floor_le _ (Rat.mul_nonneg h0 hHW))
+
+/-- `ratio_max = 1/2`, `u = 3/7` on a 4 × 4 grid: target `6 ≤ 8` -/
+example : ((3/7 : Rat) * ((4 * 4 : Nat) : Rat)).floor.toNat = 6 ∧ ((1/2 : Rat) * ((4 * 4 : Nat) : Rat)).floor.toNat = 8 ∧
+    (3/7 : Rat) ≤ 1/2 := by decide +kernel
+
+/-- **Totality of the DINO collator.** For every grid, every `n = B·V`, every `k ≤ n` targets, every permutation argument:
+    if every location drawn for a block that passed the out-of-bounds test respects the contract of
+    `rng.integers(0, H-h+1)` / `rng.integers(0, W-w+1)` (`ProposalOk`) and the recorded proposal supply of each mask is at
+    least `10 · total` long (`_mask_block` looks at ≤ 10 proposals per call and `_generate_mask` calls it ≤ `total` times,
+    because every non-final call masks ≥ 1 new patch), `collate` returns: no `IndexError`, no exhausted tape, and the
+    `while` loop terminates. -/
+theorem dino_collate_total {β : Type} (batch : β) (H W n k : Nat) (gens : List Gen) (perm : List Nat)
+    (hlen : gens.length = k) (hk : k ≤ n) (hg : ∀ g ∈ gens, GenOk H W g) :
+    ∃ o, collate batch H W n k gens perm = .ok o := by
+  obtain ⟨rs, hrs⟩ := c17x_generateAll_total H W gens hg
+  unfold collate
+  have h1 : ¬ gens.length ≠ k := by omega
+  have h2 : ¬ k > n := by omega
+  simp only [h1, h2, if_false, hrs]
+  exact ⟨_, rfl⟩
+
+/-- … and unconditionally (arbitrary tapes, arbitrary parameters) the model never reports an exhausted `while`-loop fuel:
+    `generate_terminates` lifted to `collate` -/
+theorem dino_collate_never_out_of_fuel {β : Type} (batch : β) (H W n k : Nat) (gens : List Gen) (perm : List Nat) :
+    collate batch H W n k gens perm ≠ .error .outOfFuel := by
+  unfold collate
+  split
+  · simp
+  · split
+    · simp
+    · cases hg : generateAll H W gens with
+      | error e =>
+        simp only
+        intro he
+        simp only [Except.error.injEq] at he
+        subst he
+        exact c17x_generateAll_no_fuel_error H W gens hg
+      | ok rs => simp
+
+/-- a supply of 20 proposals for a target of 2 on a 3 × 3 grid satisfies `GenOk` -/
+example : GenOk 3 3 ⟨2, List.replicate 20 ⟨1, 2, 1, 0⟩⟩ := by
+  refine ⟨?_, by decide⟩
+  intro p hp
+  rw [List.mem_replicate] at hp
+  rw [hp.2]
+  decide
+
+end dino2
+
+section dino3
+open KDVerif.Masks.Dino
+
+/-- `dino_collate_total` applies: 3 × 3 grid, 2 masks, 1 generated with target 2 and a supply of 20 proposals -/
+example : ∃ o, collate () 3 3 2 1 [⟨2, List.replicate 20 ⟨1, 2, 1, 0⟩⟩] [1, 0] = .ok o := by
+  refine dino_collate_total () 3 3 2 1 _ _ rfl (by decide) ?_
+  intro g hg
+  simp only [List.mem_singleton] at hg
+  subst hg
+  refine ⟨?_, by decide⟩
+  intro p hp
+  rw [List.mem_replicate] at hp
+  rw [hp.2]
+  decide
+
+/-- **Batch data passes through unchanged, stated non-vacuously** (clause "Batch data passes through unchanged"). The
+    collator runs with `default_collate_mode = "before"`: what it is handed is `default_collate` of the samples' items
+    (`Collate.collateItems`, C18's model), and what it hands back is exactly that value — for every grid, mask budget,
+    proposal tape and shuffle. Two calls on the same items with different mask parameters and different draws return the
+    same batch. -/
+theorem dino_batch_is_default_collate (xs : List (List Collate.Field)) (cols : List Collate.Col)
+    (hdc : Collate.collateItems xs = .ok cols)
+    (H W n k : Nat) (gens : List Gen) (perm : List Nat) (o : Out (List Collate.Col))
+    (h : collate cols H W n k gens perm = .ok o)
+    (H' W' n' k' : Nat) (gens' : List Gen) (perm' : List Nat) (o' : Out (List Collate.Col))
+    (h' : collate cols H' W' n' k' gens' perm' = .ok o') :
+    Collate.collateItems xs = .ok o.batch ∧ o'.batch = o.batch := by
+  have e1 := dino_batch_passthrough cols H W n k gens perm o h
+  have e2 := dino_batch_passthrough cols H' W' n' k' gens' perm' o' h'
+  rw [e1, e2]
+  exact ⟨hdc, rfl⟩
+
+/-- the hypotheses are satisfiable: `default_collate` of two `(scalar, sequence)` samples, then a DINO call on it -/
+example : (match Collate.collateItems [[.scal 1, .seq [1, 2]], [.scal 2, .seq [3, 4]]] with
+    | .ok cols => cols == [.scalars [1, 2], .rows [[1, 2], [3, 4]]] &&
+        (match collate cols 2 3 2 1 [⟨2, [⟨1, 2, 1, 0⟩]⟩] [1, 0] with
+         | .ok o => o.batch == cols
+         | .error _ => false)
+    | .error _ => false) = true := by decide +kernel
+
+end dino3
+
+section ijepa2
+open KDVerif.Masks.Ijepa
+
+/-- same for the I-JEPA collator: the batch handed back is `default_collate` of the items, whatever the configuration,
+    the step counter, the front end's sizes and the numpy draws are -/
+theorem ijepa_batch_is_default_collate (xs : List (List Collate.Field)) (cols : List Collate.Col)
+    (hdc : Collate.collateItems xs = .ok cols)
+    (c : Cfg) (sizes : Int → Rounded) (counter : Int) (B : Nat) (tape : List Nat) (o : Out (List Collate.Col))
+    (h : collate cols c sizes counter B tape = .ok o)
+    (c' : Cfg) (sizes' : Int → Rounded) (counter' : Int) (B' : Nat) (tape' : List Nat) (o' : Out (List Collate.Col))
+    (h' : collate cols c' sizes' counter' B' tape' = .ok o') :
+    Collate.collateItems xs = .ok o.batch ∧ o'.batch = o.batch := by
+  have e1 := ijepa_batch_passthrough cols c sizes counter B tape o h
+  have e2 := ijepa_batch_passthrough cols c' sizes' counter' B' tape' o' h'
+  rw [e1, e2]
+  exact ⟨hdc, rfl⟩
+
+/-- **Block sizes depend only on the step counter — over two independent runs** (clause "block sizes depending only on the
+    collator's step counter"). Two collators with the same grid (`seqlen_h`, `seqlen_w`) but otherwise arbitrary
+    configurations (`num_pred_masks`, `num_enc_masks`, `min_keep`, `tries`), arbitrary batches and batch sizes and arbitrary
+    numpy tapes (= numpy seeds), whose step counters agree and whose torch generators — seeded with that step — produce the
+    same rounded sizes *at that step* (`sizes₁ (counter+1) = sizes₂ (counter+1)`; the functions may differ elsewhere), use
+    the same predictor and encoder block sizes and leave the same counter; consequently (non-empty batches, at least one
+    predictor mask) all predictor masks of both runs have one and the same length `ph·pw`. -/
+theorem block_sizes_two_runs {β₁ β₂ : Type} (b1 : β₁) (b2 : β₂) (c1 c2 : Cfg) (hH : c1.H = c2.H) (hW : c1.W = c2.W)
+    (sizes1 sizes2 : Int → Rounded) (counter : Int) (hs : sizes1 (counter + 1) = sizes2 (counter + 1))
+    (B1 B2 : Nat) (t1 t2 : List Nat) (o1 : Out β₁) (o2 : Out β₂)
+    (h1 : collate b1 c1 sizes1 counter B1 t1 = .ok o1) (h2 : collate b2 c2 sizes2 counter B2 t2 = .ok o2) :
+    o1.predSize = o2.predSize ∧ o1.encSize = o2.encSize ∧ o1.counter = o2.counter ∧
+    (0 < B1 → 0 < c1.nPred → 0 < B2 → 0 < c2.nPred →
+      ∀ r1 ∈ o1.predRows, ∀ r2 ∈ o2.predRows, r1.length = r2.length ∧ r1.length = o1.predSize.1 * o1.predSize.2) := by
+  obtain ⟨_, k1, p1, e1, _⟩ := collate_ok h1
+  obtain ⟨_, k2, p2, e2, _⟩ := collate_ok h2
+  have hp : o1.predSize = o2.predSize := by rw [p1, p2, hs]; simp [blockSize, hH, hW]
+  have he : o1.encSize = o2.encSize := by rw [e1, e2, hs]; simp [blockSize, hH, hW]
+  refine ⟨hp, he, by rw [k1, k2], ?_⟩
+  intro hB1 hn1 hB2 hn2 r1 hr1 r2 hr2
+  obtain ⟨_, _, _, _, l1, _⟩ := pred_masks_rectangles_common_size b1 c1 sizes1 counter B1 t1 o1 h1 hB1 hn1 r1 hr1
+  obtain ⟨_, _, _, _, l2, _⟩ := pred_masks_rectangles_common_size b2 c2 sizes2 counter B2 t2 o2 h2 hB2 hn2 r2 hr2
+  exact ⟨by rw [l1, l2, hp], l1⟩
+
+/-- **… and the counter is the number of calls**: the second of two consecutive calls (any batches, batch sizes, tapes)
+    uses the sizes of step `counter + 2` -/
+theorem block_sizes_follow_step_counter {β₁ β₂ : Type} (b1 : β₁) (b2 : β₂) (c : Cfg) (sizes : Int → Rounded) (counter : Int)
+    (B1 B2 : Nat) (t1 t2 : List Nat) (o1 : Out β₁) (o2 : Out β₂)
+    (h1 : collate b1 c sizes counter B1 t1 = .ok o1) (h2 : collate b2 c sizes o1.counter B2 t2 = .ok o2) :
+    o2.counter = counter + 2 ∧
+    o2.predSize = blockSize c (sizes (counter + 2)).ph (sizes (counter + 2)).pw ∧
+    o2.encSize = blockSize c (sizes (counter + 2)).eh (sizes (counter + 2)).ew := by
+  obtain ⟨_, k1, _⟩ := collate_ok h1
+  obtain ⟨_, k2, p2, e2, _⟩ := collate_ok h2
+  have : o1.counter + 1 = counter + 2 := by rw [k1]; omega
+  rw [this] at k2 p2 e2
+  exact ⟨k2, p2, e2⟩
+
+/-- two runs at the same step with different batch sizes, tapes, `num_pred_masks`/`min_keep`: same sizes `(2,1)`, `(3,3)` -/
+example : (match collate () ⟨4, 4, 2, 1, 2, 20⟩ (fun _ => ⟨2, 1, 3, 3⟩) 6 1 [0, 0, 1, 2, 0, 0],
+      collate "other" ⟨4, 4, 1, 1, 1, 5⟩ (fun s => if s = 7 then ⟨2, 1, 3, 3⟩ else ⟨1, 1, 1, 1⟩) 6 2 [1, 1, 0, 0, 0, 2, 0, 0] with
+    | .ok o1, .ok o2 => o1.predSize == (2, 1) && o2.predSize == (2, 1) && o1.encSize == (3, 3) && o2.encSize == (3, 3) &&
+        o1.counter == 7 && o2.counter == 7 && o2.predRows.length == 2
+    | _, _ => false) = true := by decide +kernel
+
+end ijepa2
 
 end KDVerif.C17
